@@ -67,11 +67,16 @@ type HookOther struct {
 	Name  string   `json:"name"`
 	Incl  []string `json:"incl,omitempty"`
 	Group string   `json:"group,omitempty"`
+	// conversion bindings: crdName and the `conversions` rules [fromVersion, toVersion] in their order
+	// (not given: a CRD of its own and the single rule v1alpha1 -> v1beta1)
+	Crd   string      `json:"crd,omitempty"`
+	Rules [][2]string `json:"rules,omitempty"`
 }
 
 // Hook: the bindings.  The events are the elements of Input.Ctxs (Kind "hook-ev"):
 // Op "sync" (K = kubernetes binding), "apply" | "delete" of Objects[0] (K = kubernetes binding),
-// "fire" (K = other binding; Review for admission/conversion bindings).
+// "fire" (K = other binding; Review for admission/conversion bindings; for a conversion binding From/To
+// name the rule the request was resolved to - the controller is asked with (crdName of K, rule)).
 type Hook struct {
 	Kube  []HookKube  `json:"kube,omitempty"`
 	Other []HookOther `json:"other,omitempty"`
@@ -130,6 +135,22 @@ func otherKey(t string) string {
 func hookCrontab(k int) string { return fmt.Sprintf("%d * * * *", k%60) }
 func hookCrd(k int) string     { return fmt.Sprintf("crd%d.example.com", k) }
 
+func isConv(t string) bool { return otherKey(t) == "kubernetesCustomResourceConversion" }
+
+func (h *Hook) crd(k int) string {
+	if h.Other[k].Crd != "" {
+		return h.Other[k].Crd
+	}
+	return hookCrd(k)
+}
+
+func (h *Hook) rules(k int) [][2]string {
+	if len(h.Other[k].Rules) > 0 {
+		return h.Other[k].Rules
+	}
+	return [][2]string{{hookConvFrom, hookConvTo}}
+}
+
 // ConfigText writes the hook configuration (JSON) the case stands for.
 func (h *Hook) ConfigText() string {
 	cfg := map[string]any{"configVersion": "v1"}
@@ -174,8 +195,12 @@ func (h *Hook) ConfigText() string {
 		case "kubernetesValidating", "kubernetesMutating":
 			b["rules"] = rules
 		default:
-			b["crdName"] = hookCrd(i)
-			b["conversions"] = []any{map[string]any{"fromVersion": hookConvFrom, "toVersion": hookConvTo}}
+			b["crdName"] = h.crd(i)
+			var convs []any
+			for _, r := range h.rules(i) {
+				convs = append(convs, map[string]any{"fromVersion": r[0], "toVersion": r[1]})
+			}
+			b["conversions"] = convs
 		}
 		lists[otherKey(o.Type)] = append(lists[otherKey(o.Type)], b)
 	}
@@ -195,6 +220,8 @@ type HookEv struct {
 	Type string  // watch: Added Modified Deleted
 	Item Item    // watch: the object (for Deleted: its last state) with the jq oracle's answer
 	Rev  *Review // fire
+	From string  // fire on a conversion binding: the rule
+	To   string
 }
 
 // hookEvents replays the cluster operations of every kubernetes binding on a map (an operation on
@@ -216,7 +243,15 @@ func hookEvents(h *Hook, ops []Ctx) []HookEv {
 			}
 		case "fire":
 			if op.K >= 0 && op.K < len(h.Other) {
-				evs = append(evs, HookEv{Op: "fire", K: op.K, Rev: op.Review})
+				ev := HookEv{Op: "fire", K: op.K, Rev: op.Review}
+				if isConv(h.Other[op.K].Type) {
+					ev.From, ev.To = op.From, op.To
+					if ev.From == "" && ev.To == "" {
+						r := h.rules(op.K)[0]
+						ev.From, ev.To = r[0], r[1]
+					}
+				}
+				evs = append(evs, ev)
 			}
 		case "apply", "delete":
 			if op.K < 0 || op.K >= len(h.Kube) || len(op.Objects) != 1 {
@@ -448,7 +483,7 @@ func runHook(in Input) (obs Obs) {
 				for _, ob := range rev.Objects {
 					req.Objects = append(req.Objects, rawExt(ob))
 				}
-				hctl.HandleConversionEvent(hookCrd(ev.K), req, conversion.Rule{FromVersion: hookConvFrom, ToVersion: hookConvTo}, cb)
+				hctl.HandleConversionEvent(h.crd(ev.K), req, conversion.Rule{FromVersion: ev.From, ToVersion: ev.To}, cb)
 			}
 		}
 		if obs.Err != "" {
@@ -548,9 +583,19 @@ func renderHook(in Input, obs *Obs, crash string) core.Case {
 			core.CoqBool(k.keep()), core.CoqList(k.events(), coqWev), core.CoqList(h.includes(k.Incl, k.Group), core.CoqBytes),
 			core.CoqBytes(k.Group), core.CoqList(k.Initial, func(it Item) string { return "(" + coqWobj(it) + ")" }))
 	})
-	other := core.CoqList(h.Other, func(o HookOther) string {
-		return fmt.Sprintf("mkObind %s %s %s %s", coqHookBType(o.Type), core.CoqBytes(o.Name),
-			core.CoqList(h.includes(o.Incl, o.Group), core.CoqBytes), core.CoqBytes(o.Group))
+	oidx := make([]int, len(h.Other))
+	for i := range oidx {
+		oidx[i] = i
+	}
+	other := core.CoqList(oidx, func(i int) string {
+		o := h.Other[i]
+		crd, rules := "", [][2]string{}
+		if isConv(o.Type) {
+			crd, rules = h.crd(i), h.rules(i)
+		}
+		return fmt.Sprintf("mkObind %s %s %s %s %s %s", coqHookBType(o.Type), core.CoqBytes(o.Name),
+			core.CoqList(h.includes(o.Incl, o.Group), core.CoqBytes), core.CoqBytes(o.Group), core.CoqBytes(crd),
+			core.CoqList(rules, func(r [2]string) string { return "(" + core.CoqBytes(r[0]) + ", " + core.CoqBytes(r[1]) + ")" }))
 	})
 	idx := make([]int, len(evs))
 	for i := range idx {
@@ -568,11 +613,10 @@ func renderHook(in Input, obs *Obs, crash string) core.Case {
 		if s, ok := core.CoqJSONBytes([]byte(reviewOf[e])); ok && reviewOf[e] != "" {
 			review = s
 		}
-		from, to := "", ""
-		if otherKey(h.Other[ev.K].Type) == "kubernetesCustomResourceConversion" {
-			from, to = hookConvFrom, hookConvTo
+		if isConv(h.Other[ev.K].Type) {
+			return fmt.Sprintf("HConv %s %s %s %s", core.CoqBytes(h.crd(ev.K)), review, core.CoqBytes(ev.From), core.CoqBytes(ev.To))
 		}
-		return fmt.Sprintf("HOther %d %s %s %s", ev.K, review, core.CoqBytes(from), core.CoqBytes(to))
+		return fmt.Sprintf("HOther %d %s", ev.K, review)
 	})
 	hcase := fmt.Sprintf("(mkHcase\n    %s\n    %s\n    %s)", kube, other, events)
 	observed := "None"
@@ -604,7 +648,12 @@ func renderHook(in Input, obs *Obs, crash string) core.Case {
 			case "watch":
 				hev = append(hev, fmt.Sprintf("%d: %s %s seen by kubernetes binding %q", e, ev.Type, resourceID(ev.Item.Obj), h.Kube[ev.K].Name))
 			default:
-				hev = append(hev, fmt.Sprintf("%d: %s binding %q (binding %d of the other bindings) fires", e, h.Other[ev.K].Type, h.Other[ev.K].Name, ev.K))
+				if isConv(h.Other[ev.K].Type) {
+					hev = append(hev, fmt.Sprintf("%d: conversion request for CRD %q resolved to the rule %s -> %s (declared by binding %q, binding %d of the other bindings, rules %v)",
+						e, h.crd(ev.K), ev.From, ev.To, h.Other[ev.K].Name, ev.K, h.rules(ev.K)))
+				} else {
+					hev = append(hev, fmt.Sprintf("%d: %s binding %q (binding %d of the other bindings) fires", e, h.Other[ev.K].Type, h.Other[ev.K].Name, ev.K))
+				}
 			}
 		}
 		human = map[string]any{"hook_config": h.ConfigText(), "events": hev, "items": obs.HookItems, "file": json.RawMessage(obs.Out)}
@@ -666,11 +715,42 @@ func renderHook(in Input, obs *Obs, crash string) core.Case {
 			}
 		}
 	}
+	crds := map[string]int{}
+	for i, o := range h.Other {
+		if isConv(o.Type) {
+			c.Tags = append(c.Tags, fmt.Sprintf("hook:conversion-binding:rules=%d", len(h.rules(i))))
+			crds[h.crd(i)]++
+		}
+	}
+	for _, n := range crds {
+		if n > 1 {
+			tag("hook:conversion:several-bindings-on-one-CRD")
+		}
+	}
 	for _, ev := range evs {
 		if ev.Op != "fire" {
 			continue
 		}
 		o := h.Other[ev.K]
+		if isConv(o.Type) {
+			rs := h.rules(ev.K)
+			pos := -1
+			for i, r := range rs {
+				if r[0] == ev.From && r[1] == ev.To {
+					pos = i
+				}
+			}
+			switch {
+			case pos < 0:
+				c.Tags = append(c.Tags, "hook:conversion-request:undeclared-rule")
+			case len(rs) == 1:
+				c.Tags = append(c.Tags, "hook:conversion-request:the-only-rule")
+			case pos == len(rs)-1:
+				c.Tags = append(c.Tags, "hook:conversion-request:last-of-several-rules")
+			default:
+				c.Tags = append(c.Tags, "hook:conversion-request:not-the-last-of-several-rules")
+			}
+		}
 		for j := 0; j < ev.K; j++ {
 			if p := h.Other[j]; otherKey(p.Type) == otherKey(o.Type) && p.Name == o.Name {
 				if !sameSet(h.includes(p.Incl, p.Group), h.includes(o.Incl, o.Group)) {
@@ -732,6 +812,7 @@ func renderHook(in Input, obs *Obs, crash string) core.Case {
 
 var hookNames = []string{"pods.example.com", "cm.example.com", "x.y.z", "settings.example.com"}
 var hookNamespaces = []string{"d", "ks", "n3"}
+var hookVersions = []string{"v1alpha1", "v1beta1", "v1", "v2"}
 var hookOtherTypes = []string{"schedule", "kubernetesValidating", "kubernetesMutating", "kubernetesCustomResourceConversion"}
 
 func (g *gen) subset(xs []string, pct int) []string {
@@ -855,6 +936,61 @@ func (g *gen) hook(triggerPct int) Input {
 				}
 			}
 		}
+		if isConv(o.Type) {
+			// 1-4 rules in any order; several bindings may serve one CRD (mostly with other rules)
+			o.Crd = g.pick([]string{"crontabs.example.com", "crontabs.example.com", "things.example.com"})
+			convRules := func(crd string) [][2]string {
+				used := map[[2]string]bool{}
+				for _, p := range h.Other {
+					if isConv(p.Type) && p.Crd == crd && !g.r.Chance(10) {
+						for _, r := range p.Rules {
+							used[r] = true
+						}
+					}
+				}
+				var free [][2]string
+				for _, a := range hookVersions {
+					for _, b := range hookVersions {
+						if r := [2]string{a, b}; a != b && !used[r] {
+							free = append(free, r)
+						}
+					}
+				}
+				for i := len(free) - 1; i > 0; i-- {
+					j := g.r.Intn(i + 1)
+					free[i], free[j] = free[j], free[i]
+				}
+				n := 1 + g.r.Intn(4)
+				if n > len(free) {
+					n = len(free)
+				}
+				return free[:n]
+			}
+			o.Rules = convRules(o.Crd)
+			if len(o.Rules) == 0 {
+				continue
+			}
+			if g.r.Chance(35) {
+				// a sibling: another conversion binding of the same CRD, declared after it
+				sib := HookOther{Type: o.Type, Name: g.pick(names), Crd: o.Crd}
+				dup := sib.Name == o.Name
+				for _, p := range h.Other {
+					dup = dup || p.Name == sib.Name && p.Type == sib.Type
+				}
+				if !dup {
+					h.Other = append(h.Other, o)
+					sib.Rules = convRules(o.Crd)
+					if nk > 0 {
+						sib.Incl = g.subset(kubeNames, 50)
+					}
+					if len(sib.Rules) > 0 {
+						o = sib
+					} else {
+						continue
+					}
+				}
+			}
+		}
 		h.Other = append(h.Other, o)
 	}
 	in := Input{Version: "v1", Hook: h}
@@ -886,13 +1022,40 @@ func (g *gen) hook(triggerPct int) Input {
 		}
 		return Ctx{Kind: "hook-ev", Op: "apply", K: k, Objects: []Item{{Obj: flowObj(kb.Ns, name, g.obj()), Filter: kb.JqFilter, Keep: kb.keep()}}}
 	}
-	otherEv := func(k int) Ctx { return Ctx{Kind: "hook-ev", Op: "fire", K: k, Review: g.hookReview(h.Other[k].Type)} }
+	otherEv := func(k int) Ctx {
+		c := Ctx{Kind: "hook-ev", Op: "fire", K: k, Review: g.hookReview(h.Other[k].Type)}
+		if isConv(h.Other[k].Type) {
+			r := h.rules(k)[g.r.Intn(len(h.rules(k)))]
+			c.From, c.To = r[0], r[1]
+		}
+		return c
+	}
 	for n := 1 + g.r.Intn(4); n > 0; n-- {
 		if nk > 0 && (len(h.Other) == 0 || g.r.Chance(50)) {
 			in.Ctxs = append(in.Ctxs, kubeEv(g.r.Intn(nk)))
 		} else if len(h.Other) > 0 {
 			in.Ctxs = append(in.Ctxs, otherEv(g.r.Intn(len(h.Other))))
 		}
+	}
+	// a request for every rule of every conversion binding (most of them), in any order
+	var convEvs []Ctx
+	for k, o := range h.Other {
+		if !isConv(o.Type) {
+			continue
+		}
+		for _, r := range h.rules(k) {
+			if g.r.Chance(75) {
+				convEvs = append(convEvs, Ctx{Kind: "hook-ev", Op: "fire", K: k, Review: g.hookReview(o.Type), From: r[0], To: r[1]})
+			}
+		}
+	}
+	for i := len(convEvs) - 1; i > 0; i-- {
+		j := g.r.Intn(i + 1)
+		convEvs[i], convEvs[j] = convEvs[j], convEvs[i]
+	}
+	for _, c := range convEvs {
+		at := g.r.Intn(len(in.Ctxs) + 1)
+		in.Ctxs = append(in.Ctxs[:at], append([]Ctx{c}, in.Ctxs[at:]...)...)
 	}
 	// namesakes of different types meet in the array, in either order
 	for k, kb := range h.Kube {
@@ -1062,6 +1225,21 @@ func hookCorpus() []core.In[Input] {
 			{Kind: "hook-ev", Op: "delete", K: 0, Objects: []Item{hookCM("d", "settings", "bar")}}, {Kind: "hook-ev", Op: "sync", K: 0}}})
 	add(Input{Version: "v1", Hook: &Hook{Other: []HookOther{{Type: "schedule", Name: "tick.example.com"}, {Type: "kubernetesMutating", Name: "tick.example.com"}}},
 		Ctxs: []Ctx{{Kind: "hook-ev", Op: "fire", K: 0}, {Kind: "hook-ev", Op: "fire", K: 1, Review: &Review{UID: "uid-5", Operation: "CREATE"}}}})
+	// conversion: one binding with the chain v1alpha1 -> v1beta1 -> v1 (+ back), another binding of the same CRD
+	// with v1 -> v2; one request per rule, first rule first and last
+	convFire := func(k int, from, to string) Ctx {
+		return Ctx{Kind: "hook-ev", Op: "fire", K: k, From: from, To: to,
+			Review: &Review{UID: "uid-" + from, Desired: "stable.example.com/" + to, Objects: []any{pod("ct", nil, 1)}}}
+	}
+	chain := [][2]string{{"v1alpha1", "v1beta1"}, {"v1beta1", "v1"}, {"v1", "v1alpha1"}}
+	add(Input{Version: "v1", Hook: &Hook{
+		Kube: []HookKube{{Name: "cm.example.com", Ns: "ks", Initial: []Item{hookCM("ks", "settings", "bar")}}},
+		Other: []HookOther{{Type: "kubernetesCustomResourceConversion", Name: "up.example.com", Crd: "crontabs.example.com", Rules: chain, Incl: []string{"cm.example.com"}},
+			{Type: "kubernetesCustomResourceConversion", Name: "up2.example.com", Crd: "crontabs.example.com", Rules: [][2]string{{"v1", "v2"}}}}},
+		Ctxs: []Ctx{convFire(0, "v1alpha1", "v1beta1"), convFire(1, "v1", "v2"), convFire(0, "v1", "v1alpha1"), convFire(0, "v1beta1", "v1"), convFire(0, "v1alpha1", "v1beta1")}})
+	add(Input{Version: "v1", Hook: &Hook{
+		Other: []HookOther{{Type: "kubernetesCustomResourceConversion", Name: "up.example.com", Crd: "crontabs.example.com", Rules: [][2]string{{"v1", "v2"}, {"v2", "v1"}}}}},
+		Ctxs: []Ctx{convFire(0, "v1", "v2")}})
 	// F30: two schedule bindings called tick.example.com, the second one includes the ConfigMaps and fires
 	settings := Item{Obj: cmData("ks", "settings", "bar"), Filter: "{data: .data}"}
 	out = append(out, core.In[Input]{Stream: "trigger-F30", Input: Input{Version: "v1", Hook: &Hook{
@@ -1087,6 +1265,36 @@ func hookExhaustive() []core.In[Input] {
 					for _, b := range lists {
 						out = append(out, core.In[Input]{Input: hookPair(t, kubeFirst, sync, a, b), Stream: "exhaustive"})
 					}
+				}
+			}
+		}
+	}
+	return out
+}
+
+// hookConvExhaustive (thorough, search): one conversion binding with 1-4 rules in every rotation, a request
+// for every rule, with and without a second binding on the same CRD (declared before or after).
+func hookConvExhaustive() []core.In[Input] {
+	var out []core.In[Input]
+	all := [][2]string{{"v1alpha1", "v1beta1"}, {"v1beta1", "v1"}, {"v1", "v1alpha1"}, {"v1alpha1", "v1"}}
+	for n := 1; n <= len(all); n++ {
+		for rot := 0; rot < n; rot++ {
+			rules := append(append([][2]string{}, all[rot:n]...), all[:rot]...)
+			for idx := 0; idx < n; idx++ {
+				for second := 0; second < 3; second++ {
+					first := HookOther{Type: "kubernetesCustomResourceConversion", Name: "up.example.com", Crd: "crontabs.example.com", Rules: rules}
+					other := HookOther{Type: "kubernetesCustomResourceConversion", Name: "up2.example.com", Crd: "crontabs.example.com", Rules: [][2]string{{"v2", "v1"}}}
+					h := &Hook{Other: []HookOther{first}}
+					k := 0
+					switch second {
+					case 1:
+						h.Other = []HookOther{first, other}
+					case 2:
+						h.Other, k = []HookOther{other, first}, 1
+					}
+					r := rules[idx]
+					out = append(out, core.In[Input]{Stream: "exhaustive", Input: Input{Version: "v1", Hook: h, Ctxs: []Ctx{
+						{Kind: "hook-ev", Op: "fire", K: k, From: r[0], To: r[1], Review: &Review{UID: "uid-1", Desired: "stable.example.com/" + r[1]}}}}})
 				}
 			}
 		}
